@@ -388,6 +388,21 @@ pub fn run(cfg: &Cfg) -> Stats {
             eval_stream(&s, &mut st, None, "stream");
             i += n;
         }
+        // every lead byte with second / third bytes on the edges of the well-formed ranges (overlong forms, encoded
+        // surrogates, beyond U+10FFFF, truncation by a control or an escape), followed by an ordinary sequence
+        if shard == 0 || (n > 1 && shard == 1) {
+            for lead in 0xC0u16..=0xFF {
+                if n > 1 && (lead as u64) % 2 != shard % 2 {
+                    continue;
+                }
+                for second in [0x7fu8, 0x80, 0x8f, 0x90, 0x9f, 0xa0, 0xbf, 0xc0, 0x1b, 0x18] {
+                    for third in [0x80u8, 0xbf, 0x41, 0x1b, 0x18, 0x9c] {
+                        let d = [lead as u8, second, third, b'[', b'1', b'm', b'Z', 0xe2, 0x82, 0xac, b'.'];
+                        eval_stream(&d, &mut st, None, "utf8-edges");
+                    }
+                }
+            }
+        }
         // every parameter / sub-parameter value around the saturation point
         if shard == 0 {
             for v in 65500u32..=65560 {
